@@ -155,7 +155,7 @@ claimed["C08"] = dict(
         "all inputs, as necessary conditions: in (*Proof).Undo and everything it reaches hashes are paired with positions of one order class and caller order never reaches a "
         "requires-sorted sink; the updated lists returned by the undo helpers are taken over by the caller; the block's additions are reverted before its deletions and the deletion "
         "step works with the leaf count before the additions (numLeaves - numAdds); within one function the elements of a position list that is never written are read with one leaf count only "
-        "(a contradiction there is the known finding F2: undoAdd drops live leaves when the block destroyed empty roots).",
+        "(a contradiction there is the known finding F2: undoAdd drops live leaves when the block destroyed empty roots); an existence decision made with maxPositionAtRow is dominated by a test that the forest had leaves.",
    ref="DESIGN.md 5/C08, engines E2+E7",
    technique="static dominance / dataflow rules on go/ssa and order-class abstract interpretation (custom analyzer)")
 
@@ -192,7 +192,7 @@ m = {
               "kind_free_text": "repository-specific static analyzer: go/packages + go/types + go/ssa + VTA/CHA call graph; path/dominance rules, lockset, slice-ownership abstract interpretation, flow- and context-sensitive order-class and coordinate-layout abstract interpretation, io discipline"}],
  "checks": checks,
  "not_applicable": na,
- "notes": "All checks are static (no utreexo code is executed). Twenty genuine defects reported by the rules on the pinned tree were repaired in /repo by 'fix:' commits and two are recorded as known findings (F1: C10, F2: C08) because no small repair passes the unedited suite / exists; see known_findings.json and DESIGN.md section 6. The independently seeded defects are kept under seeded/ (DESIGN.md section 10); those a rule reports are re-applied as self-test variants by every thorough run.",
+ "notes": "All checks are static (no utreexo code is executed). Twenty-one genuine defects reported by the rules on the pinned tree were repaired in /repo by 'fix:' commits and two are recorded as known findings (F1: C10, F2: C08) because no small repair passes the unedited suite / exists; see known_findings.json and DESIGN.md section 6. The independently seeded defects are kept under seeded/ (DESIGN.md section 10); those a rule reports are re-applied as self-test variants by every thorough run.",
 }
 json.dump(m, open(os.path.join(V, "MANIFEST.json"), "w"), indent=1)
 print("checks:", [c["property_id"] for c in checks], "not_applicable:", [n["property_id"] for n in na])
